@@ -3,10 +3,17 @@ import CryoCat.Lemmas.C02_NumWrite
 import CryoCat.Lemmas.C02_Crlf
 import CryoCat.Lemmas.C02_ComRead
 import CryoCat.Lemmas.C02_Hard
+import CryoCat.Lemmas.C02_Export
 /-! C02 — property theorems: STAR files read back to the same blocks, columns, rows and values.
 Only theorems and non-vacuity examples; the proofs are in `Lemmas/C02*.lean`. The model
 (`Model/C02.lean`) is the one the driver executes; the layout grammar of the statement is
-`Model/C02_Layout.lean`. -/
+`Model/C02_Layout.lean`.
+
+The pure theorems other properties build on (`star_roundtrip`, `written_column_typing`, `typed_roundtrip`; used by
+C04) are proved in `Lemmas/C02_Export.lean`, which does not contain (or import) any translator obligation; here they
+are re-exported under the same names with the same statements. Other properties import `Lemmas/C02_Export`, never
+this file: this file stops building when an anchor fails or a regenerated dump of `Gen/C02.lean` changes, and only
+C02 may fail for that. -/
 namespace CryoCat.C02
 
 /-! ### translator obligations: the literals of `cryocat/starfileio.py` are the documented ones -/
@@ -133,7 +140,7 @@ at least one column, an empty table only as the last block — reading the text 
 produces returns the same block names, column names and rows of cells, all in order. -/
 theorem star_roundtrip (numberColumns : Bool) (bs : List Block) (h : ∀ b ∈ bs, BlockOk b)
     (he : EmptyOnlyLast bs) : readStar (printStar numberColumns bs) = .ok bs :=
-  readStar_printStar numberColumns bs h he
+  Export.star_roundtrip numberColumns bs h he
 
 /-- the written text *is* a document of the layout grammar (so every fact about reading laid-out
 texts applies to files written by cryoCAT) -/
@@ -188,7 +195,8 @@ infinite float, or a text that is itself a number token. -/
 theorem written_column_typing (rows : List (List Cell)) (j : Nat) (hj : ∀ r ∈ rows, j < r.length)
     (hwf : ∀ r ∈ rows, ∀ c ∈ r, CellWF c) :
     colNumeric isNumTok (rows.map (fun r => r.map cellText)) j = true ↔
-      rows ≠ [] ∧ ∀ r ∈ rows, ∀ c, r[j]? = some c → c.isNumber = true := typed_column rows j hj hwf
+      rows ≠ [] ∧ ∀ r ∈ rows, ∀ c, r[j]? = some c → c.isNumber = true :=
+  Export.written_column_typing rows j hj hwf
 
 /-- **Round trip of typed tables**: writing tables of integers, floats (any digit strings) and text
 cells and reading the file back returns the printed cells block by block, and every column of a
@@ -197,13 +205,8 @@ theorem typed_roundtrip (numberColumns : Bool) (bs : List TBlock) (h : ∀ b ∈
     (he : EmptyOnlyLast (bs.map TBlock.texts)) :
     readStar (printTyped numberColumns bs) = .ok (bs.map TBlock.texts) ∧
     ∀ b ∈ bs, ∀ j < b.cols.length,
-      (colNumeric isNumTok b.texts.rows j = true ↔ b.rows ≠ [] ∧ ∀ r ∈ b.rows, ∀ c, r[j]? = some c → c.isNumber = true) := by
-  refine ⟨star_roundtrip numberColumns _ (fun b hb => ?_) he, ?_⟩
-  · obtain ⟨tb, htb, rfl⟩ := List.mem_map.1 hb
-    exact texts_ok tb (h tb htb)
-  · intro b hb j hj
-    obtain ⟨_, _, _, hr⟩ := h b hb
-    exact typed_column b.rows j (fun r hr' => by rw [(hr r hr').1]; exact hj) (fun r hr' => (hr r hr').2)
+      (colNumeric isNumTok b.texts.rows j = true ↔ b.rows ≠ [] ∧ ∀ r ∈ b.rows, ∀ c, r[j]? = some c → c.isNumber = true) :=
+  Export.typed_roundtrip numberColumns bs h he
 
 /-! ### CRLF line ends -/
 
